@@ -13,7 +13,7 @@ CFG = dict(
     find_bad_from="find_bad_from",
     go_tags="sv",
     rigs=[dict(test="TestC10", timeout_quick=400, timeout_thorough=1800)],
-    reason_text={"1": "the real server's observation differs from every outcome of the Gallina model (Model/Server.v, all orders of internal rules)",
+    reason_text={"7": "the server process died in this scenario (panic)", "8": "the connection never became quiescent again in this scenario: a goroutine waits for ever for a lock (wedge)", "1": "the real server's observation differs from every outcome of the Gallina model (Model/Server.v, all orders of internal rules)",
                  "2": "Serve has not returned although the trigger (read failure / write failure / Stop) happened and every handler has returned",
                  "3": "a stream handler goroutine was still alive when Serve returned",
                  "4": "Serve has returned but the context of a handler that is still running is not done",
@@ -24,7 +24,7 @@ CFG = dict(
          "against a blocked transport, <-ctx.Done(), their body, after response envelopes} x trigger in {transport read failure, "
          "transport write failure, Server.Stop} inserted at EVERY position of the base conversation; handlers return when their context "
          "is done; at the end every handler returns. Also 8 / 9 unary handlers (all workers busy, the 9th request parks the read loop; "
-         "thorough: 8+8, 9+8) and seeded random walks with transport faults followed by the trigger. Observed after every action: "
+         "thorough: 8+8, 9+8) and seeded random walks with transport faults followed by the trigger. The rig runs as 8 parallel child processes; a process death or a wedge is re-run alone and, if it persists, recorded as a failing case (reasons 7 / 8). Observed after every action: "
          "handler events, envelopes written, registry size, unread envelopes, parked handlers, handler contexts, Serve returned, "
          "writer / worker / runStream goroutines (runtime.Stack).",
     assumptions=["payloads, metadata, names are opaque to the server connection (tokens)",
